@@ -10,7 +10,7 @@ RSP, QSP = ["g", "G", "GK"], ["F", "S", "FK", "DCS"]
 ENTRIES = [f"FourierFilter.{a}_using_{b}" for a in RSP for b in QSP]
 RULE = ("one of the 12 variants at random, random r/Q grids (with/without 0), data, uncertainties (or None), cutoff between or on "
         "grid points, material constants; lorch/correction at random; non-trivial = >= 2 r points at or below the cutoff and >= 1 above")
-DIST = ["entry", "lorch", "omitted", "qorder"]
+DIST = ["entry", "lorch", "omitted", "qorder", "cutkind"]
 SHRINK = None
 
 
@@ -18,6 +18,13 @@ def gen(rng, i, tier):
     e = ENTRIES[int(rng.integers(0, len(ENTRIES)))]
     c = cases.make_case(rng, e, maxn=40 if tier == "quick" else 300)
     args = list(c["args"])
+    cutkind = "ordinary"
+    if rng.random() < 0.15 and len(args[0]) >= 3:
+        # a cutoff that leaves exactly one r point in [0, cutoff]: the removed signal is the transform of a single point (zero), and the
+        # returned real-space function is still the transform of the returned corrected function
+        r_ = np.asarray(args[0], dtype=float)
+        args[4] = float(r_[0] + rng.uniform(0.0, 0.9) * (r_[1] - r_[0]))
+        cutkind = "one-point"
     qorder = "ascending"
     if rng.random() < 0.18 and len(args[2]) >= 4:
         # the same reciprocal-space data listed in another order: descending (time-of-flight order), or two detector banks stored
@@ -32,7 +39,7 @@ def gen(rng, i, tier):
             if args[j] is not None:
                 args[j] = np.asarray(args[j])[order]
     return dict(entry=e, args=[tolist(a) if not np.isscalar(a) else a for a in args], kw=c["kw"],
-                lorch=c["meta"]["lorch"], omitted=c["meta"]["omitted"], pert=float(rng.normal() * 3), qorder=qorder)
+                lorch=c["meta"]["lorch"], omitted=c["meta"]["omitted"], pert=float(rng.normal() * 3), qorder=qorder, cutkind=cutkind)
 
 
 def run(case, args=None):
